@@ -87,13 +87,27 @@ def run(rec, cfg):
         if rng.random() < 0.002:
             rec.sample({"text": s[:100]})
     # histories with failures interleaved (sticky state)
+    elder = ExpressionParser()
+    elder._vmon_history = []
     for h in range(cfg.scale(80, 800)):
         if cfg.out_of_time():
             rec.truncated = True
             break
-        p = ExpressionParser()
-        p._vmon_history = []
+        if h % 2 and elder is not None:
+            p = elder
+            rec.arm("histories:on-the-long-lived-parser")
+            if len(elder._vmon_history) > 6000:
+                del elder._vmon_history[:-3000]
+        else:
+            p = ExpressionParser()
+            p._vmon_history = []
         pool = W8.text_pool(rng, corp, n_valid=3, n_invalid=4)
+        if h % 3 == 0:
+            # failures deep inside nested groups (whatever a failed parse leaves behind adds up over
+            # the life of the parser), and valid grouped texts asked after them
+            d = rng.choice([3, 10, 40, 90, 120])
+            pool += ["(" * d + "x", "sgn(" * rng.choice([2, 7, 30, 80]) + "4y", "(4 + (x", "2 * sgn((x +", "(" * 5 + "x + )", "(1 + 2) * 3", "(2 + 3) * sgn((x))"]
+            rec.arm("histories:deep-failures-in-pool")
         st = W8.drive_history(p, rng, pool, rng.randint(20, 120), edit_lists=False)
         rec.arm("histories")
         if h % 40 == 0:
